@@ -105,4 +105,15 @@ theorem mpz_swap_exact (u v : Mpz) (hu : WF u) (hv : WF v) :
 
 example : swap ⟨1, 1, [3]⟩ ⟨2, -2, [4, 1]⟩ = (⟨2, -2, [4, 1]⟩, ⟨1, 1, [3]⟩) := by decide
 
+/-- C05 for mpz_add / mpz_sub at the level of this model: the value does not depend on which object is
+    the destination — in particular `add u u v`, `add v u v` (rop is an input) and `add w u v` agree. -/
+theorem mpz_add_alias_ok (w w' u v : Mpz) (hu : WF u) (hv : WF v) :
+    toInt (add w u v) = toInt (add w' u v) ∧ toInt (sub w u v) = toInt (sub w' u v) := by
+  rw [(mpz_add_exact w u v hu hv).1, (mpz_add_exact w' u v hu hv).1,
+    (mpz_sub_exact w u v hu hv).1, (mpz_sub_exact w' u v hu hv).1]
+  exact ⟨rfl, rfl⟩
+
+example : toInt (add ⟨2, 2, [0, 1]⟩ ⟨2, 2, [0, 1]⟩ ⟨1, -1, [1]⟩) = toInt (add init ⟨2, 2, [0, 1]⟩ ⟨1, -1, [1]⟩) := by
+  decide
+
 end Mpir.Mpz
